@@ -132,7 +132,7 @@ pub fn check_values(c: &CwCase) -> Verdict {
 }
 
 fn g_cw() -> BoxedStrategy<CwCase> {
-    (any::<u16>(), any::<u16>(), vec(any::<u8>(), 2178), any::<u16>(), any::<u8>())
+    (any::<u16>(), any::<u16>(), crate::gens::g_blob(2178), any::<u16>(), any::<u8>())
         .prop_map(|(s, k, bytes, p, b)| {
             let sym = pick(s, 48);
             let n = SYMBOLS[sym].total();
